@@ -140,6 +140,7 @@ func (s *DefaultSaftyRules) CheckProposal(proposal, parent QuorumCertInterface, 
 	// 检查justify的所有vote签名
 	justifySigns := parent.GetSignsInfo()
 	validCnt := 0
+	countedAddrs := map[string]bool{}
 	for _, v := range justifySigns {
 		if !isInSlice(v.GetAddress(), justifyValidators) {
 			continue
@@ -148,6 +149,11 @@ func (s *DefaultSaftyRules) CheckProposal(proposal, parent QuorumCertInterface, 
 		if ok, _ := s.Crypto.VerifyVoteMsgSign(v, parent.GetProposalId()); !ok {
 			return InvalidVoteSign
 		}
+		// 同一个validator的重复签名只计一次
+		if countedAddrs[v.GetAddress()] {
+			continue
+		}
+		countedAddrs[v.GetAddress()] = true
 		validCnt++
 	}
 	if !s.CalVotesThreshold(validCnt, len(justifyValidators)) {
